@@ -63,7 +63,6 @@ let norm_idx idx = List.sort compare (List.map (fun (k, ((f, a), b)) -> (ints k,
 let show_idx idx = String.concat " " (List.map (fun (k, ((f, a), b)) ->
   Printf.sprintf "%s->(%d,%d,%d)" (show_str k) (int_of_z f) (int_of_z a) (int_of_z b)) idx)
 
-let n_f7 = ref 0
 let rec nodup = function [] -> true | x :: r -> not (List.mem x r) && nodup r
 
 let merge_case id c =
@@ -82,12 +81,7 @@ let merge_case id c =
    | MPanic, Some _ -> propfail id ("MergeReversedDictsIdentities panics" ^ sfx)
    | MOk (gidx, gmerged), Some (midx, mmerged) ->
        let ok = ref true in
-       (* lib/check.py attaches case lines to the first 2000 findings only; the failures inside the F7 domain
-          (one known finding) are therefore listed up to a cap and counted beyond it *)
-       let fail what = if !ok then begin ok := false;
-         if dom then propfail id what
-         else if !n_f7 < 1500 then begin incr n_f7; propfail id (what ^ sfx) end
-         else count "f7_domain_failures_beyond_the_1500_listed" end in
+       let fail what = if !ok then begin ok := false; propfail id (what ^ sfx) end in
        if not (bool_of_sx (List.hd (args (field "agree" obs)))) then fail "merge: answers differ between runs on equal inputs";
        if not (mtotal_okb rd1 rd2 gidx gmerged) then
          fail ("merge-total: an input identity has no merged index (or one out of range), or a key is not an input identity: " ^ show_idx gidx);
